@@ -3,6 +3,107 @@
 // Contracts for package store, read by /verif/govc (comment-only file: no declarations).
 package store
 
+//@ -- ------------------------------------------------------------------
+//@ -- Interface contracts of the store, as seen by the HTTP handlers (assumed for callers; the
+//@ -- implementations in dir.go / mem.go are verified against their own contracts where stated).
+//@ -- Ghost model: the repository a value stands for, and a counter of successful mutations.
+//@ -- fault(): a store call failed for a reason the request did not cause (I/O, closed store, cancelled context).
+//@ model Repo { name string; blobs set[digest.Digest] }
+//@ -- an upload session: the repository it belongs to, and a counter of state-changing calls (Write, Verify, Close, Cancel, ChangeAlgorithm)
+//@ model BlobCreator { repo string; written int; gone bool }
+
+//@ iface (st Store) RepoGet(ctx context.Context, repoStr string) (repo Repo, err error)
+//@   -- only names of the repository grammar reach the store (C16); the empty name is excluded by the path split, which is not modelled
+//@   requires [name-valid]{C16} repoStr == "" || re_rePath(repoStr)
+//@   modifies ghost(fault), alloc
+//@   ensures [ok] err == nil ==> repo != nil && repo.name == repoStr
+//@   ensures [err] err != nil ==> repo == nil && (errIs(err, types.ErrRepoNotAllowed) || fault())
+//@   ensures [fault-monotone] old(fault()) ==> fault()
+
+//@ iface (repo Repo) Done()
+//@   modifies alloc
+
+//@ iface (repo Repo) IndexGet() (index types.Index, err error)
+//@   modifies ghost(fault), alloc
+//@   ensures [err] err != nil ==> fault()
+//@   ensures [fault-monotone] old(fault()) ==> fault()
+//@   ensures [wf] err == nil ==> types.wfW1(index) && types.wfW2(index) && types.wfW7(index)
+//@   -- entries are only ever written with parsed or computed digests (assumed for index files found on disk)
+//@   ensures [valid-digests] err == nil ==> (forall k: int :: 0 <= k && k < len(index.Manifests) ==> digestOK(index.Manifests[k].Digest)) &&
+//@             (forall k: int :: 0 <= k && k < len(index.childManifests) ==> digestOK(index.childManifests[k].Digest))
+
+//@ iface (repo Repo) IndexInsert(desc types.Descriptor, opts []types.IndexOpt) (err error)
+//@   -- the content an index entry points to is stored first (C09): the last BlobCreate reported "exists" or the last Close succeeded
+//@   requires [blob-before-index]{C09} blobReady()
+//@   modifies ghost(fault), ghost(mutations), alloc
+//@   ensures [ok] err == nil ==> mutations() == old(mutations()) + 1
+//@   ensures [err] err != nil ==> mutations() == old(mutations()) && fault()
+//@   ensures [fault-monotone] old(fault()) ==> fault()
+
+//@ iface (repo Repo) IndexRemove(desc types.Descriptor) (err error)
+//@   modifies ghost(fault), ghost(mutations), alloc
+//@   ensures [ok] err == nil ==> mutations() == old(mutations()) + 1
+//@   ensures [err] err != nil ==> mutations() == old(mutations()) && fault()
+//@   ensures [fault-monotone] old(fault()) ==> fault()
+
+//@ iface (repo Repo) BlobGet(d digest.Digest) (rdr io.ReadSeekCloser, err error)
+//@   modifies ghost(fault), alloc
+//@   ensures [ok] err == nil ==> rdr != nil && (d in repo.blobs)
+//@   ensures [err] err != nil ==> rdr == nil && (!digestOK(d) || errIs(err, types.ErrNotFound) || fault())
+//@   ensures [missing] err != nil && !fault() ==> !(d in repo.blobs)
+//@   ensures [fault-monotone] old(fault()) ==> fault()
+
+//@ iface (repo Repo) BlobCreate(opts []BlobOpt) (bc BlobCreator, sessionID string, err error)
+//@   modifies ghost(fault), ghost(blobReady), alloc
+//@   ensures [ok] err == nil ==> bc != nil && bc.repo == repo.name && bc.written == 0 && !bc.gone && !blobReady()
+//@   ensures [err] err != nil ==> bc == nil && (errIs(err, types.ErrBlobExists) || fault()) && (blobReady() <==> errIs(err, types.ErrBlobExists))
+//@   ensures [fault-monotone] old(fault()) ==> fault()
+
+//@ iface (repo Repo) BlobDelete(d digest.Digest) (err error)
+//@   modifies ghost(fault), ghost(mutations), alloc, Repo.blobs
+//@   ensures [ok] err == nil ==> mutations() == old(mutations()) + 1 && !(d in repo.blobs)
+//@   ensures [err] err != nil ==> mutations() == old(mutations()) && (errIs(err, types.ErrNotFound) || fault())
+//@   ensures [fault-monotone] old(fault()) ==> fault()
+
+//@ iface (repo Repo) BlobSession(sessionID string) (bc BlobCreator, err error)
+//@   modifies alloc
+//@   ensures [ok] err == nil ==> bc != nil && bc.repo == repo.name && !bc.gone
+//@   ensures [err] err != nil ==> bc == nil
+
+//@ iface (bc BlobCreator) Write(p []byte) (n int, err error)
+//@   modifies ghost(fault), alloc, BlobCreator.written
+//@   ensures [counted] bc.written == old(bc.written) + 1
+//@   ensures [err] err != nil ==> fault()
+//@   ensures [fault-monotone] old(fault()) ==> fault()
+
+//@ iface (bc BlobCreator) Close() (err error)
+//@   modifies ghost(fault), ghost(mutations), ghost(blobReady), alloc, BlobCreator.written, BlobCreator.gone, Repo.blobs
+//@   ensures [counted] bc.written == old(bc.written) + 1
+//@   ensures [ok] err == nil ==> bc.gone && blobReady() && mutations() == old(mutations()) + 1
+//@   ensures [err] err != nil ==> fault() && mutations() == old(mutations())
+//@   ensures [fault-monotone] old(fault()) ==> fault()
+
+//@ iface (bc BlobCreator) Cancel() (err error)
+//@   modifies ghost(fault), alloc, BlobCreator.written, BlobCreator.gone
+//@   ensures [counted] bc.written == old(bc.written) + 1
+//@   ensures [ok] err == nil ==> bc.gone
+//@   ensures [err] err != nil ==> fault()
+//@   ensures [fault-monotone] old(fault()) ==> fault()
+
+//@ iface (bc BlobCreator) Size() (n int64)
+//@   modifies alloc
+//@   ensures n >= 0
+
+//@ iface (bc BlobCreator) Digest() (d digest.Digest)
+//@   modifies alloc
+
+//@ iface (bc BlobCreator) Verify(d digest.Digest) (err error)
+//@   modifies alloc, BlobCreator.written
+//@   ensures [counted] bc.written == old(bc.written) + 1
+
+//@ iface (bc BlobCreator) ChangeAlgorithm(a digest.Algorithm) (err error)
+//@   modifies alloc
+
 //@ func referrerListDedup(rl []types.Descriptor) (res []types.Descriptor)
 //@   props C17
 //@   ensures [nil-to-nil] rl == nil ==> res == nil
